@@ -198,7 +198,7 @@ TInitSend ==
              /\ MatchState(LastOf(InitSend(st, w, a).steps), e, "InitSend")
         ELSE \* an error persists nothing that reserves funds
              /\ Check(/\ DOMAIN S2.w[w].ctxs = DOMAIN st.w[w].ctxs
-                      /\ LockedKeys(S2, w) = LockedKeys(st, w)
+                      /\ LockedKeys(S2, w) \subseteq LockedKeys(st, w)
                       /\ DOMAIN S2.w[w].txs \subseteq DOMAIN Refresh1(st, w, AcctOf(st, w, a.src), FALSE).w[w].txs,
                       "C01", "ErrPersistsNothing", e, "")
              /\ MatchState(LET nb == S2.w[w].idx[S2.w[w].active].child - st.w[w].idx[st.w[w].active].child IN
@@ -487,7 +487,7 @@ TIssueInvoice ==
          r == IssueInvoice(st, w, a)
          newK == (DOMAIN S2.w[w].outs) \ (DOMAIN st.w[w].outs) IN
      /\ Ok(e) => Check(\A k \in newK : PathFresh(hv, w, k), "C15", "PathsUnique", e, "issue_invoice")
-     /\ (~Ok(e)) => Check(LockedKeys(S2, w) = LockedKeys(st, w), "C01", "ErrPersistsNothing", e, "issue_invoice")
+     /\ (~Ok(e)) => Check(LockedKeys(S2, w) \subseteq LockedKeys(st, w), "C01", "ErrPersistsNothing", e, "issue_invoice")
      /\ Ok(e) => MatchState(LastOf(r.steps), e, "IssueInvoice")
      /\ Step(hv)
 ProcArgs(e, post) ==
@@ -507,8 +507,8 @@ TProcessInvoice ==
      /\ (MustRefuseTtl(st, w, e.ttl)) => Check(~Ok(e) /\ S2.w[w] = st.w[w], "C17", "ExpiredRefused", e, "process_invoice")
      /\ (MustNotRefuseTtl(st, w, e.ttl)) => Check(e.res # "err:expired", "C17", "NotExpiredUntouched", e, "process_invoice")
      /\ Ok(e) => Check(SelectAvoidsReserved(st, S2, w, e.sl), "C03", "SelectAvoidsReserved", e, "process_invoice")
-     /\ Ok(e) => Check(LockedKeys(S2, w) = LockedKeys(st, w), "C03", "PayInvoiceLocksNothing", e, "")
-     /\ (~Ok(e)) => Check(DOMAIN S2.w[w].ctxs = DOMAIN st.w[w].ctxs /\ LockedKeys(S2, w) = LockedKeys(st, w),
+     /\ Ok(e) => Check(LockedKeys(S2, w) \subseteq LockedKeys(st, w), "C03", "PayInvoiceLocksNothing", e, "")
+     /\ (~Ok(e)) => Check(DOMAIN S2.w[w].ctxs = DOMAIN st.w[w].ctxs /\ LockedKeys(S2, w) \subseteq LockedKeys(st, w),
                           "C01", "ErrPersistsNothing", e, "process_invoice")
      /\ Ok(e) => MatchState(LastOf(r.steps), e, "ProcessInvoice")
      /\ AccountIsolation(E, st, S2)
